@@ -42,7 +42,8 @@ def run(c):
         return
     c.coq_properties()
     from decgen_tie import run_decgen
-    run_decgen(c, "C05")   # regenerated leaf logic (go/decgen) vs the proved golden coq/Gen/DecC05.v
+    run_decgen(c, "C05")   # regenerated leaf logic (go/decgen) vs the proved golden coq/Gen/DecC05.v (tied to idem_cfg by C05/TieGen.v)
+    run_decgen(c, "C01")   # getAndIncrementSequenceNumber / bumpEpoch / stamping condition vs coq/Gen/DecC01.v (tied to txn_stamp / txn_bump)
     b = c.go_build("c05corr")
     if not b:
         return
